@@ -964,6 +964,13 @@ def run_r8(F, rep):
         for e, facts in G.sites(body, "mcall"):
             if e[2] in ("powf", "powi", "mul_add", "exp", "exp2", "exp10") and not any(e is x or any(y is e for y in walk(x)) for x, _ in ariths):
                 ariths.append((e, facts))
+        # no float is cut down to an integer on the way (an exponent `as i32` in front of powi drops its fraction: 1.5e0.5 -> 1.5)
+        INT_T = re.compile(r"^(i8|i16|i32|i64|i128|isize|u8|u16|u32|u64|u128|usize)$")
+        for c_ in find(body, "cast"):
+            tgt = re.sub(r"\s", "", str(c_[2]))
+            if INT_T.match(tgt) and any(is_node(x) and x[0] == "path" and x[1] in fl for x in walk(c_[1])):
+                rep.bad("C13-R8", "%s:float-cast-to-%s" % (name, tgt), "%s() casts a float (`%s`) to %s on the way to its result: the fractional part is cut off "
+                        "(a scientific literal with a fractional exponent, e.g. 1.5e0.5, no longer denotes mantissa x 10^exponent)" % (name, render(c_)[:60], tgt), "%s (mech_interpreter.lib)" % name)
         for e, facts in ariths:
             if e[0] == "bin" and e[1] in ("*", "*=") and (_unit_sign(P, e[2]) or _unit_sign(P, e[3])):
                 continue            # multiplication by a selected +1 / -1 is exact: it is how a sign is applied, not a scaling step
